@@ -239,7 +239,9 @@ func (rb *Rebalancer) removeServer(u *url.URL) error {
 
 func (rb *Rebalancer) upsertServer(u *url.URL, weight int) error {
 	if s, i := rb.findServer(u); i != -1 {
+		// already tracked: only the configured weight changes
 		s.origWeight = weight
+		return nil
 	}
 	meter, err := rb.newMeter()
 	if err != nil {
